@@ -78,6 +78,13 @@ def check_vector(v):
         A = _iv(a)
         cmp("get_pileup", v["pileup"], outcome(lambda: get_pileup(A, S).to_array().tolist()))
         cmp("get_boolean_mask", v["mask"], outcome(lambda: [bool(x) for x in get_boolean_mask(A, S).to_array().tolist()]))
+        # an empty interval inserted anywhere covers nothing (MC_C08!EmptyCoversNothing): mask and pile-up are those of a
+        for k in range(len(a) + 1):
+            for p in sorted({0, S // 2, S}):
+                a2 = a[:k] + [{"s": p, "e": p}] + a[k:]
+                A2 = _iv(a2)
+                cmp("get_boolean_mask[with empty interval]", v["mask"], outcome(lambda: [bool(x) for x in get_boolean_mask(A2, S).to_array().tolist()]), at=k, pos=p)
+                cmp("get_pileup[with empty interval]", v["pileup"], outcome(lambda: get_pileup(A2, S).to_array().tolist()), at=k, pos=p)
         cmp("sort_intervals", v["sorted"], outcome(lambda: _rows(sort_intervals(A))))
         cmp("sort_intervals[StringEncoding]", v["sorted"], outcome(lambda: _rows(sort_intervals(_iv_strenc(a)))))
         g = Geometry({"chr1": S})
@@ -224,7 +231,7 @@ def run(ctx):
     quick = ctx.tier == "quick"
     consts = dict(S=4, NA=3, NB=2, LO=1, HI=2) if quick else dict(S=6, NA=3, NB=1, LO=1, HI=2)
     invs = ["SumIsLength", "MaskIsMergeMask", "MergeIdempotent", "MergeDisjoint", "SortIsPermutation",
-            "OverlapSymmetric", "ExtendInside", "Emit"]
+            "OverlapSymmetric", "ExtendInside", "EmptyCoversNothing", "Emit"]
     res = ctx.tlc("MC_C08", spec="Spec", constants=consts, invariants=invs, properties=["PileupMonotone"],
                   coverage=True)
     ctx.require_actions(res, "MC_C08", ["AddA", "AddB"])
